@@ -9,6 +9,9 @@ CLASS_FILTER = {'C01': r'^LDG_', 'C02': r'^LUG_', 'C03': r'^L[DU]G_(VLabel|uint|
                 'C05': r'^(DW|UW)__'}
 
 
+CODEC_UNITS = ('swapBytes', '_isSystemBigEndian', 'readBinaryValue', 'writeBinaryValue')
+
+
 def level_of(prop):
     return 'proof' if prop in PROOF else 'model_checking'
 
@@ -67,6 +70,10 @@ def units_for(prop, sp, index, tier='quick'):
                     seen.add(c)
                     out.append(c)
                     todo.append(c)
+    # the binary codec functions are also proved at byte level under both machine byte orders
+    for f in list(out):
+        if f in CODEC_UNITS:
+            out += [f + '@le', f + '@be']
     return sorted(out)
 
 
